@@ -210,7 +210,12 @@ def ob_allow_list(report):
                 cex = {'sender_present': z3.is_true(m.eval(has, True)), 'sender': '%064x' % m.eval(sender, True).as_long(),
                        'list': ['%064x' % m.eval(a, True).as_long(), '%064x' % m.eval(b, True).as_long()],
                        'listed': z3.is_true(m.eval(member, True)), 'outcome': cls} if m is not None else {}
-                return viol(ob, [ex], f'allow-list outcome `{cls}` outside its condition: {cex}', f'allow-{cls}', {'counterexample': cex, **path_summary(r)}, len(outs))
+                o = viol(ob, [ex], f'allow-list outcome `{cls}` outside its condition: {cex}', f'allow-{cls}', {'counterexample': cex, **path_summary(r)}, len(outs))
+                if cex:
+                    import kani
+                    kani.confirm_natively(o, PROP, 'auth', 'verif_replay_c20_allow_list',
+                                          {'VERIF_CEX_LIST': ','.join(cex['list']), 'VERIF_CEX_SENDER': cex['sender'] if cex['sender_present'] else ''}, 'allow-list and sender')
+                return o
             seen.add(cls)
         if seen != {'accept', 'no-identity', 'unlisted'}:
             return ob.done([ex], 'inconclusive', f'vacuity: {seen}', paths=len(outs))
